@@ -405,6 +405,88 @@ pub fn on_fresh_thread<T: Send + 'static>(f: impl FnOnce() -> T + Send + 'static
     }
 }
 
+/// `LIB <fn> <args>`: the std / leb128 functions the Lean model mirrors, applied directly
+/// (no crate code involved), so that the mirror itself is validated on every run.
+fn lib_op(f: &str, a: &[&str]) -> Option<String> {
+    let ord = |o: std::cmp::Ordering| match o {
+        std::cmp::Ordering::Less => "L",
+        std::cmp::Ordering::Equal => "E",
+        std::cmp::Ordering::Greater => "G",
+    };
+    match (f, a) {
+        ("utf8", [x]) => Some((std::str::from_utf8(&unhex(x)?).is_ok() as u8).to_string()),
+        ("trim", [x]) => {
+            let b = unhex(x)?;
+            let s = std::str::from_utf8(&b).ok()?;
+            Some(format!("{} {} {}", hxs(s.trim()), hxs(s.trim_start()), hxs(s.trim_end())))
+        }
+        ("lines", [x]) => {
+            let b = unhex(x)?;
+            let s = std::str::from_utf8(&b).ok()?;
+            let v: Vec<String> = s.lines().map(hxs).collect();
+            Some(format!("[{}]", v.join(";")))
+        }
+        ("num", [x]) => {
+            let b = unhex(x)?;
+            let s = std::str::from_utf8(&b).ok()?;
+            Some(format!(
+                "{} {}",
+                s.parse::<usize>().map_or("-".to_string(), |n| n.to_string()),
+                s.parse::<u32>().map_or("-".to_string(), |n| n.to_string())
+            ))
+        }
+        ("dec", [n]) => Some(hxs(&n.parse::<usize>().ok()?.to_string())),
+        ("cmp", [x, y]) => {
+            let (bx, by) = (unhex(x)?, unhex(y)?);
+            let (sx, sy) = (std::str::from_utf8(&bx).ok()?, std::str::from_utf8(&by).ok()?);
+            Some(format!("{} {}", ord(sx.cmp(sy)), ord((sx, "k").cmp(&(sy, "j")))))
+        }
+        ("split", [x, c]) => {
+            let b = unhex(x)?;
+            let s = std::str::from_utf8(&b).ok()?;
+            let c = *unhex(c)?.first()? as char;
+            if !c.is_ascii() {
+                return None;
+            }
+            let r = |o: Option<(&str, &str)>| o.map_or("-".to_string(), |(p, q)| format!("({},{})", hxs(p), hxs(q)));
+            Some(format!("{} {} {}", r(s.split_once(c)), r(s.rsplit_once(c)), r(s.split_once(": "))))
+        }
+        ("bs", [pat]) => {
+            // `binary_search_by` on 0..n with an arbitrary (also non-monotone) comparator
+            let p: Vec<std::cmp::Ordering> = pat
+                .bytes()
+                .filter(|c| *c != b'.')
+                .map(|c| match c {
+                    b'L' => Some(std::cmp::Ordering::Less),
+                    b'E' => Some(std::cmp::Ordering::Equal),
+                    b'G' => Some(std::cmp::Ordering::Greater),
+                    _ => None,
+                })
+                .collect::<Option<Vec<_>>>()?;
+            let idx: Vec<usize> = (0..p.len()).collect();
+            Some(match idx.binary_search_by(|&i| p[i]) {
+                Ok(i) => format!("ok {}", i),
+                Err(i) => format!("err {}", i),
+            })
+        }
+        ("leb", [x]) => {
+            let b = unhex(x)?;
+            let mut rd: &[u8] = &b;
+            Some(match leb128::read::unsigned(&mut rd) {
+                Ok(v) => format!("{} {}", v, b.len() - rd.len()),
+                Err(_) => "-".to_string(),
+            })
+        }
+        ("lebw", [n]) => {
+            let n: u64 = n.parse().ok()?;
+            let mut out = Vec::new();
+            leb128::write::unsigned(&mut out, n).ok()?;
+            Some(hx(&out))
+        }
+        _ => None,
+    }
+}
+
 type SegSpec = (Option<(String, Option<String>)>, Vec<(String, String, usize, Option<String>)>);
 
 pub fn parse_trace_toks(toks: &[&str]) -> Option<Vec<SegSpec>> {
@@ -814,6 +896,7 @@ impl State {
                 hxs(&t.to_string())
             }
             ["FMT", _] => "ok".into(),
+            ["LIB", f, rest @ ..] => lib_op(f, rest).unwrap_or_else(bad),
             ["SF", c, m, l, f, p] => {
                 // the three public constructors and every accessor of `StackFrame`
                 let (c, m, l, f, p) = (s!(c), s!(m), n!(l), os!(f), os!(p));
